@@ -123,29 +123,6 @@ func (b *Box) HandleMessage(msg *IncMessage) {
 	}
 }
 
-func (b *Box) getOrCreateMessagesByTopic(topic []byte) *storedMessages {
-	b.initialize()
-
-	b.lock.RLock()
-	messages, exists := b.pendingMessages[string(topic)]
-	b.lock.RUnlock()
-
-	if exists {
-		return messages
-	}
-
-	b.lock.Lock()
-	defer b.lock.Unlock()
-
-	messages, exists = b.pendingMessages[string(topic)]
-	if !exists {
-		messages = &storedMessages{messageCountPerSender: make(map[uint16]int), logger: b.Logger}
-	}
-
-	b.pendingMessages[string(topic)] = messages
-	return messages
-}
-
 func (b *Box) storeOrForward(msg *IncMessage) {
 	b.initialize()
 
@@ -167,20 +144,36 @@ func (b *Box) storeOrForward(msg *IncMessage) {
 		return
 	}
 
-	b.markTopicForSender(msg)
-
-	messages := b.getOrCreateMessagesByTopic(msg.Topic)
-	messages.add(msg, atomic.LoadUint64(&b.currentGCEpochNum))
+	if !b.store(msg) {
+		// The topic has started in the meantime
+		b.MessageHandler.HandleMessage(msg)
+	}
 }
 
-func (b *Box) markTopicForSender(msg *IncMessage) {
+// store buffers the message unless the topic has started. The check and the store are one critical section:
+// a concurrent Send on the topic either finds the message in the buffer it drains, or has already marked the
+// topic as started (and then nothing is buffered for it any more).
+func (b *Box) store(msg *IncMessage) bool {
 	b.lock.Lock()
 	defer b.lock.Unlock()
+
+	if _, started := b.startedSending[string(msg.Topic)]; started {
+		return false
+	}
 
 	if _, exists := b.totalInFlightTopicsBySender[msg.Source]; !exists {
 		b.totalInFlightTopicsBySender[msg.Source] = make(map[string]struct{})
 	}
 	b.totalInFlightTopicsBySender[msg.Source][string(msg.Topic)] = struct{}{}
+
+	messages, exists := b.pendingMessages[string(msg.Topic)]
+	if !exists {
+		messages = &storedMessages{messageCountPerSender: make(map[uint16]int), logger: b.Logger}
+		b.pendingMessages[string(msg.Topic)] = messages
+	}
+
+	messages.add(msg, atomic.LoadUint64(&b.currentGCEpochNum))
+	return true
 }
 
 func (b *Box) initialize() {
